@@ -507,6 +507,7 @@ structure Acc where
   noopAfterSuccess : Bool := true
   settledAfterSuccess : Bool := true
   checkErrorsAsPredicted : Bool := true
+  unknownRejected : Bool := true
   nSettled : Nat := 0
   logAgrees : Bool := true
   regenFirst : Bool := true
@@ -554,6 +555,18 @@ def stepOp (acc : Acc) (op : World.Op) : Acc :=
       -- manifest rule does: a declared dirtying source that is missing, or an unordered generated file
       let checkErr := showResult (.err "check_build_dirty")
       let checkErrOk := o.result != checkErr || showResult res == checkErr
+      -- C18: a command-line name the manifest does not declare (known, say, only from the log of an
+      -- earlier manifest) is rejected: the invocation does not succeed (judged when no reload happened)
+      let unknownOk :=
+        if a.adopt || segs.length ≥ 2 then true else
+        match Load.load (fun n => (before.fs.get n).map (·.content)) a.manifestName with
+        | .ok l =>
+          let names := l.graph.files.map (·.name)
+          let unknown := a.targets.any (fun t => match Canon.canon t with
+            | .ok c => !names.contains c
+            | _ => true)
+          !unknown || !o.result.startsWith "ok"
+        | .error _ => true
       -- `-t restat` starts no command
       let restat := !a.adopt || !o.trace.any (fun e => match e with | .start _ => true | _ => false)
       -- C09/C08/C02: the log the implementation left is the abstract one
@@ -607,6 +620,7 @@ def stepOp (acc : Acc) (op : World.Op) : Acc :=
                  cleanEq := acc.cleanEq && cleanOk, noopAfterSuccess := acc.noopAfterSuccess && noop,
                  settledAfterSuccess := acc.settledAfterSuccess && settledOk,
                  checkErrorsAsPredicted := acc.checkErrorsAsPredicted && checkErrOk,
+                 unknownRejected := acc.unknownRejected && unknownOk,
                  nSettled := acc.nSettled + (if settledApplies && settledOk then 1 else 0),
                  logAgrees := acc.logAgrees && logOk, regenFirst := acc.regenFirst && regen,
                  reloadIffRan := acc.reloadIffRan && reloadOk,
@@ -623,7 +637,7 @@ def handleHist (case impl : List String) : String :=
       ("logAgrees", acc.logAgrees), ("regenFirst", acc.regenFirst), ("reloadIffRan", acc.reloadIffRan),
       ("restatRunsNothing", acc.restatRunsNothing), ("wantedFromNewText", acc.wantedFromNewText),
       ("runSetAsPredicted", acc.runSetAsPredicted), ("settledAfterSuccess", acc.settledAfterSuccess),
-      ("checkErrorsAsPredicted", acc.checkErrorsAsPredicted)]
+      ("checkErrorsAsPredicted", acc.checkErrorsAsPredicted), ("unknownRejected", acc.unknownRejected)]
       ++ s!" @settledStates={acc.nSettled} @invocations={acc.nInv}"
   | _, _ => "bad-case"
 
@@ -749,6 +763,11 @@ def handle (case impl : List String) : String :=
     let want := "codes=[0,0] content=" ++ h ++ " rsp=" ++ h
     want ++ mons [("rspfileExact", " ".intercalate impl == want)]
   | ["n2bin", "fds"] => "code=0 leaked=0" ++ mons [("noFdLeak", impl == ["code=0", "leaked=0"])]
+  | ["n2bin", "tail", t, h, f] =>
+    -- every byte of the command's output is shown, whatever its last line looks like; the exit
+    -- status follows the command's
+    let want := s!"code={if f == "1" then 1 else 0} xs={t} lines={h}"
+    want ++ mons [("outputIntact", " ".intercalate impl == want)]
   | "n2bin" :: "outchain" :: toks =>
     match parseChain toks with
     | some steps =>
